@@ -2,6 +2,7 @@ import H3.Model.Settings
 import H3.Model.Config
 import H3.Spec.Settings
 import H3.Lemmas.Settings
+import H3.Lemmas.WriteBuf
 /-! # C13 — SETTINGS are sent, parsed and applied exactly, for every configuration
 
 Property theorems only.  Models: `H3.Settings` (`proto/frame.rs`: `Settings`, `SettingId`,
@@ -316,5 +317,80 @@ example : Reachable ⟨[(6, 5), (8, 1)]⟩ :=
   .insert (.insert .default (by decide : insert empty 6 5 = .ok ⟨[(6, 5)]⟩))
     (by decide : insert ⟨[(6, 5)]⟩ 8 1 = .ok ⟨[(6, 5), (8, 1)]⟩)
 example : encode? ⟨[(6, 5), (8, 1)]⟩ = some [0x04, 0x04, 0x06, 0x05, 0x08, 0x01] := by decide
+
+/-- **Sent SETTINGS under back-pressure.**  The control stream header goes through a `WriteBuf`
+    (`H3.WriteBuf`, the model C14 proves `Buf`-correct) that the transport empties in pieces of its own
+    choosing: `ks` = how many bytes it is willing to take at each `poll_ready` (0 = `Pending`).  For
+    every configuration setup accepts, every grease draw and EVERY acceptance script: nothing panics;
+    what has reached the peer so far followed by what is still in the buffer is the header of
+    `C13_sent_settings` (so the peer sees a prefix of it, never a byte twice or out of place); when
+    `write` returns, the peer has exactly the header; and it does return as soon as the script has as
+    many non-zero entries as the header has bytes.  (`drain_spec` / `drain_complete` of
+    `Lemmas/WriteBuf.lean` applied to the header array.) -/
+theorem C13_sent_settings_any_acceptance (c : Config) (n : Nat)
+    (hm : c.settings.mfs < 2^62) (hw : c.settings.wts < 2^62) (hg : greaseId n < 2^62) (ks : List Nat) :
+    ∃ (hdr : Bytes) (w : H3.WriteBuf.WB),
+      setup c n = .sent hdr ∧
+      (H3.WriteBuf.WB.new none).putOpt (some hdr) = some w ∧
+      (∃ o w', w.drain ks = some (o, w') ∧ o ++ w'.view = hdr) ∧
+      H3.WriteBuf.write (some w) ks ≠ .panic ∧
+      (∀ out, H3.WriteBuf.write (some w) ks = .ready out → out = hdr) ∧
+      (hdr.length ≤ (ks.filter (0 < ·)).length → H3.WriteBuf.write (some w) ks = .ready hdr) := by
+  obtain ⟨payload, hs, _, h42, hsz, _⟩ := C13_sent_settings c n hm hw hg
+  have hle : ([0x00, 0x04, payload.length] ++ payload).length ≤ WRITE_BUF_ENCODE_SIZE := by omega
+  obtain ⟨w, hw'⟩ := H3.WriteBuf.putOpt_new_some none _ hle
+  obtain ⟨bs, hbs, _, hwf, _, _, _, hview⟩ := H3.WriteBuf.putOpt_new hw'
+  have hbs' : bs = [0x00, 0x04, payload.length] ++ payload := (Option.some.inj hbs).symm
+  have hv : w.view = [0x00, 0x04, payload.length] ++ payload := by rw [hview, hbs']; simp
+  obtain ⟨o, w1, hd, hwf1, hov⟩ := H3.WriteBuf.drain_spec w hwf ks
+  refine ⟨_, w, hs, hw', ⟨o, w1, hd, by rw [hov, hv]⟩, ?_, ?_, ?_⟩
+  · simp only [H3.WriteBuf.write, hd]; split <;> simp
+  · intro out hout
+    simp only [H3.WriteBuf.write, hd] at hout
+    split at hout
+    · rename_i h0
+      have hnil : w1.view = [] := by
+        apply List.eq_nil_of_length_eq_zero
+        rw [← H3.WriteBuf.remaining_eq_view w1 hwf1]; exact h0
+      have : o = out := by simpa using hout
+      rw [← this, ← hv, ← hov, hnil]; simp
+    · cases hout
+  · intro hlen
+    obtain ⟨o2, w2, hd2, hv2, ho2⟩ := H3.WriteBuf.drain_complete w hwf ks (by rw [hv]; exact hlen)
+    have h0 : w2.remaining = 0 := by
+      have hwf2 : w2.WF := by
+        obtain ⟨o3, w3, hd3, hwf3, _⟩ := H3.WriteBuf.drain_spec w hwf ks
+        rw [hd2] at hd3; cases hd3; exact hwf3
+      rw [H3.WriteBuf.remaining_eq_view w2 hwf2, hv2]; rfl
+    simp only [H3.WriteBuf.write, hd2, h0, if_true]
+    rw [ho2, hv]
+
+example : ∃ w, (H3.WriteBuf.WB.new none).putOpt (some [0x00, 0x04, 0x02, 0x06, 0x05]) = some w ∧
+    H3.WriteBuf.write (some w) [2, 0, 1, 1, 7] = .ready [0x00, 0x04, 0x02, 0x06, 0x05] ∧
+    H3.WriteBuf.write (some w) [2, 0, 1] = .pending [0x00, 0x04, 0x02] { w with pos := 3 } :=
+  ⟨_, rfl, by decide, by decide⟩
+
+/-- **SETTINGS behind waiting streams.**  Unidirectional streams whose header is still incomplete
+    (`poll_type` = `Pending`) and that were accepted BEFORE the peer's control stream do not keep the
+    control stream from being looked at: whatever their number, one poll of the driver applies the
+    SETTINGS exactly as if the control stream were alone (`receive`, characterised by
+    `C13_recv_settings` / `C13_frame_wrapper`); without a control stream nothing changes. -/
+theorem C13_settings_behind_waiting_streams (c : Cell) (k : Nat) (p : Bytes) (rest : List Waiting) :
+    receiveScan c (List.replicate k .header ++ .control p :: rest) = receive c p ∧
+    receiveScan c (List.replicate k .header) = (c, none) := by
+  have h1 : ∀ k, scan (List.replicate k .header ++ .control p :: rest) = some p := by
+    intro k
+    induction k with
+    | zero => rfl
+    | succ k ih => simpa [List.replicate_succ, scan] using ih
+  have h2 : ∀ k, scan (List.replicate k Waiting.header) = none := by
+    intro k
+    induction k with
+    | zero => rfl
+    | succ k ih => simpa [List.replicate_succ, scan] using ih
+  exact ⟨by simp only [receiveScan, h1 k], by simp only [receiveScan, h2 k]⟩
+
+example : receiveScan Cell.new [.header, .header, .header, .control [0x06, 0x05, 0x21, 0x07]] =
+    (⟨some ⟨5, false, false, false, 0⟩⟩, none) := by decide
 
 end H3.Props.C13
